@@ -62,7 +62,7 @@ theorem C01_packet_progress (c : Config) (st st' : PState) (buf : Bytes) (p : Pa
     on the tables is needed: every stage returns a suffix of its input.) -/
 theorem C01_no_overflow (c : Config) (st : PState) (buf : Bytes) (ps : List Packet) :
     (parseBytes c st buf).2 ≠ .overflow ps :=
-  parseBytesF_fuel c _ st buf ps (Nat.lt_succ_self _)
+  parseBytesF_fuel_a2 c _ st buf ps (Nat.lt_succ_self _)
 
 /-! ### 3. it returns -/
 
